@@ -1,0 +1,605 @@
+//go:build verif
+
+/*
+ Licensed to the Apache Software Foundation (ASF) under one
+ or more contributor license agreements.  See the NOTICE file
+ distributed with this work for additional information
+ regarding copyright ownership.  The ASF licenses this file
+ to you under the Apache License, Version 2.0 (the
+ "License"); you may not use this file except in compliance
+ with the License.  You may obtain a copy of the License at
+
+     http://www.apache.org/licenses/LICENSE-2.0
+
+ Unless required by applicable law or agreed to in writing, software
+ distributed under the License is distributed on an "AS IS" BASIS,
+ WITHOUT WARRANTIES OR CONDITIONS OF ANY KIND, either express or implied.
+ See the License for the specific language governing permissions and
+ limitations under the License.
+*/
+
+package objects
+
+import (
+	"fmt"
+	"sort"
+	"strconv"
+	"sync"
+	"time"
+
+	"github.com/google/btree"
+
+	"github.com/apache/yunikorn-core/pkg/common/configs"
+	"github.com/apache/yunikorn-core/pkg/common/resources"
+	"github.com/apache/yunikorn-core/pkg/common/security"
+	"github.com/apache/yunikorn-core/pkg/rmproxy/rmevent"
+	siCommon "github.com/apache/yunikorn-scheduler-interface/lib/go/common"
+	"github.com/apache/yunikorn-scheduler-interface/lib/go/si"
+)
+
+// Verification hooks (build tag "verif" only) used by the preempt engine of the external harness:
+// a world (queue tree, applications, allocations on nodes, one ask) is built from plain data with the
+// regular constructors, the three preemption algorithms are run on it and their unexported working state
+// is exposed as plain data. Resources are map[string]int64, nil meaning "not set".
+
+// VerifPreemptQueueSpec describes one queue; Parent is the index of the parent in the list, -1 for the root.
+type VerifPreemptQueueSpec struct {
+	Name       string
+	Parent     int
+	Leaf       bool
+	Managed    bool
+	Guaranteed map[string]int64
+	Max        map[string]int64
+	Properties map[string]string
+}
+
+// VerifPreemptAllocSpec describes one allocation bound to a node.
+type VerifPreemptAllocSpec struct {
+	Key              string
+	App              string
+	Queue            int
+	Node             int
+	Res              map[string]int64
+	Priority         int32
+	AllowPreemptSelf bool
+	Originator       bool
+	RequiredNode     bool
+	Released         bool
+	Preempted        bool
+	AgeSec           int64
+}
+
+// VerifPreemptAskSpec describes the pending ask; CheckAgeMs < 0 means preemption was never checked for it.
+type VerifPreemptAskSpec struct {
+	Key               string
+	App               string
+	Queue             int
+	Res               map[string]int64
+	Priority          int32
+	AllowPreemptOther bool
+	RequiredNode      int // index of the required node, -1 for none
+	Triggered         bool
+	AgeMs             int64
+	CheckAgeMs        int64
+}
+
+// VerifPreemptNodeSpec describes one node.
+type VerifPreemptNodeSpec struct {
+	ID          string
+	Total       map[string]int64
+	Schedulable bool
+}
+
+// VerifPreemptWorldSpec is the complete input.
+type VerifPreemptWorldSpec struct {
+	Queues             []VerifPreemptQueueSpec
+	Nodes              []VerifPreemptNodeSpec
+	Allocs             []VerifPreemptAllocSpec
+	Ask                VerifPreemptAskSpec
+	AttemptFrequencyMs int64
+}
+
+// VerifPreemptWorld is the constructed world.
+type VerifPreemptWorld struct {
+	Spec    *VerifPreemptWorldSpec
+	Queues  []*Queue
+	Nodes   []*Node
+	Apps    map[string]*Application
+	Allocs  map[string]*Allocation
+	Placed  []bool // per allocation of the spec: did it fit on its node
+	Ask     *Allocation
+	AskApp  *Application
+	handler *verifPreemptHandler
+	mapping *AppQueueMapping
+	tree    *btree.BTree
+}
+
+type verifPreemptHandler struct {
+	sync.Mutex
+	released [][]string
+}
+
+func (h *verifPreemptHandler) HandleEvent(ev interface{}) {
+	if rel, ok := ev.(*rmevent.RMReleaseAllocationEvent); ok {
+		keys := make([]string, 0, len(rel.ReleasedAllocations))
+		for _, r := range rel.ReleasedAllocations {
+			keys = append(keys, r.AllocationKey+"/"+r.TerminationType.String())
+		}
+		h.Lock()
+		h.released = append(h.released, keys)
+		h.Unlock()
+		if rel.Channel != nil {
+			go func() { rel.Channel <- &rmevent.Result{Succeeded: true} }()
+		}
+	}
+}
+
+// VerifPreemptSetTiming sets the package timing variable used by CheckPreconditions.
+func VerifPreemptSetTiming(attemptFrequency time.Duration) time.Duration {
+	old := preemptAttemptFrequency
+	preemptAttemptFrequency = attemptFrequency
+	return old
+}
+
+func verifPreemptRes(m map[string]int64) *resources.Resource {
+	if m == nil {
+		return nil
+	}
+	r := resources.NewResource()
+	for k, v := range m {
+		r.Resources[k] = resources.Quantity(v)
+	}
+	return r
+}
+
+func verifPreemptConf(m map[string]int64) map[string]string {
+	if m == nil {
+		return nil
+	}
+	out := make(map[string]string, len(m))
+	for k, v := range m {
+		out[k] = strconv.FormatInt(v, 10)
+	}
+	return out
+}
+
+// VerifPreemptMap converts a resource to plain data; nil stays nil.
+func VerifPreemptMap(r *resources.Resource) map[string]int64 {
+	if r == nil {
+		return nil
+	}
+	out := make(map[string]int64, len(r.Resources))
+	for k, v := range r.Resources {
+		out[k] = int64(v)
+	}
+	return out
+}
+
+func verifPreemptQueueConf(s *VerifPreemptQueueSpec) configs.QueueConfig {
+	conf := configs.QueueConfig{Name: s.Name, Parent: !s.Leaf, Properties: map[string]string{}}
+	for k, v := range s.Properties {
+		conf.Properties[k] = v
+	}
+	if s.Max != nil || s.Guaranteed != nil {
+		conf.Resources = configs.Resources{Max: verifPreemptConf(s.Max), Guaranteed: verifPreemptConf(s.Guaranteed)}
+	}
+	return conf
+}
+
+// VerifPreemptBuild constructs the world with the regular constructors (NewConfiguredQueue / NewDynamicQueue,
+// NewApplication, NewAllocationFromSI, NewNode) and the regular bookkeeping calls.
+func VerifPreemptBuild(spec *VerifPreemptWorldSpec) (*VerifPreemptWorld, error) {
+	w := &VerifPreemptWorld{Spec: spec, Apps: map[string]*Application{}, Allocs: map[string]*Allocation{},
+		handler: &verifPreemptHandler{}, mapping: NewAppQueueMapping(), tree: btree.New(7)}
+	if spec.AttemptFrequencyMs > 0 {
+		preemptAttemptFrequency = time.Duration(spec.AttemptFrequencyMs) * time.Millisecond
+	}
+	for i := range spec.Queues {
+		s := &spec.Queues[i]
+		var parent *Queue
+		if s.Parent >= 0 {
+			if s.Parent >= i {
+				return nil, fmt.Errorf("queue %d: parent must precede child", i)
+			}
+			parent = w.Queues[s.Parent]
+		}
+		var q *Queue
+		var err error
+		if s.Managed || parent == nil {
+			q, err = NewConfiguredQueue(verifPreemptQueueConf(s), parent, false, w.mapping)
+			if err == nil && parent == nil && s.Max != nil {
+				q.SetMaxResource(verifPreemptRes(s.Max))
+			}
+		} else {
+			q, err = NewDynamicQueue(s.Name, s.Leaf, parent, w.mapping)
+			if err == nil && (s.Max != nil || s.Guaranteed != nil) {
+				q.SetResources(verifPreemptRes(s.Guaranteed), verifPreemptRes(s.Max))
+			}
+		}
+		if err != nil {
+			return nil, err
+		}
+		w.Queues = append(w.Queues, q)
+	}
+	for i := range spec.Nodes {
+		s := &spec.Nodes[i]
+		proto := &si.NodeInfo{NodeID: s.ID, SchedulableResource: verifPreemptRes(s.Total).ToProto()}
+		n := NewNode(proto)
+		if !s.Schedulable {
+			n.SetSchedulable(false)
+		}
+		w.Nodes = append(w.Nodes, n)
+		w.tree.ReplaceOrInsert(nodeRef{n, 1})
+	}
+	now := time.Now()
+	w.Placed = make([]bool, len(spec.Allocs))
+	for i := range spec.Allocs {
+		s := &spec.Allocs[i]
+		app, err := w.app(s.App, s.Queue)
+		if err != nil {
+			return nil, err
+		}
+		tags := map[string]string{}
+		if s.RequiredNode {
+			tags[siCommon.DomainYuniKorn+siCommon.KeyRequiredNode] = spec.Nodes[s.Node].ID
+		}
+		alloc := NewAllocationFromSI(&si.Allocation{
+			AllocationKey:    s.Key,
+			ApplicationID:    s.App,
+			PartitionName:    "default",
+			NodeID:           spec.Nodes[s.Node].ID,
+			ResourcePerAlloc: verifPreemptRes(s.Res).ToProto(),
+			Priority:         s.Priority,
+			Originator:       s.Originator,
+			AllocationTags:   tags,
+			PreemptionPolicy: &si.PreemptionPolicy{AllowPreemptSelf: s.AllowPreemptSelf},
+		})
+		alloc.createTime = now.Add(-time.Duration(s.AgeSec) * time.Second)
+		if !w.Nodes[s.Node].TryAddAllocation(alloc) {
+			continue
+		}
+		w.Placed[i] = true
+		app.AddAllocation(alloc)
+		w.Queues[s.Queue].IncAllocatedResource(alloc.GetAllocatedResource(), false)
+		if s.Released {
+			if err = alloc.SetReleased(true); err != nil {
+				return nil, err
+			}
+		}
+		if s.Preempted && !s.Released {
+			if err = alloc.MarkPreempted(); err != nil {
+				return nil, err
+			}
+			w.Queues[s.Queue].IncPreemptingResource(alloc.GetAllocatedResource())
+		}
+		w.Allocs[s.Key] = alloc
+	}
+	a := &spec.Ask
+	app, err := w.app(a.App, a.Queue)
+	if err != nil {
+		return nil, err
+	}
+	tags := map[string]string{}
+	if a.RequiredNode >= 0 {
+		tags[siCommon.DomainYuniKorn+siCommon.KeyRequiredNode] = spec.Nodes[a.RequiredNode].ID
+	}
+	ask := NewAllocationFromSI(&si.Allocation{
+		AllocationKey:    a.Key,
+		ApplicationID:    a.App,
+		PartitionName:    "default",
+		ResourcePerAlloc: verifPreemptRes(a.Res).ToProto(),
+		Priority:         a.Priority,
+		AllocationTags:   tags,
+		PreemptionPolicy: &si.PreemptionPolicy{AllowPreemptOther: a.AllowPreemptOther},
+	})
+	ask.createTime = now.Add(-time.Duration(a.AgeMs) * time.Millisecond)
+	if a.CheckAgeMs >= 0 {
+		ask.preemptCheckTime = now.Add(-time.Duration(a.CheckAgeMs) * time.Millisecond)
+	}
+	ask.preemptionTriggered = a.Triggered
+	if err = app.AddAllocationAsk(ask); err != nil {
+		return nil, err
+	}
+	w.Ask, w.AskApp = ask, app
+	return w, nil
+}
+
+func (w *VerifPreemptWorld) app(id string, queue int) (*Application, error) {
+	if app, ok := w.Apps[id]; ok {
+		if app.queue != w.Queues[queue] {
+			return nil, fmt.Errorf("application %s used in two queues", id)
+		}
+		return app, nil
+	}
+	q := w.Queues[queue]
+	if !q.IsLeafQueue() {
+		return nil, fmt.Errorf("application %s in parent queue", id)
+	}
+	app := NewApplication(&si.AddApplicationRequest{ApplicationID: id, QueueName: q.QueuePath, PartitionName: "default"},
+		security.UserGroup{User: "verif", Groups: []string{"verif"}}, w.handler, "rm")
+	app.SetQueue(q)
+	q.AddApplication(app)
+	w.mapping.AddAppQueueMapping(id, q)
+	w.Apps[id] = app
+	return app, nil
+}
+
+func (w *VerifPreemptWorld) iterator() NodeIterator {
+	return NewTreeIterator(acceptAll, func() *btree.BTree { return w.tree })
+}
+
+// VerifPreemptQueueObs is the state of one queue as the preemption code reads it.
+type VerifPreemptQueueObs struct {
+	Path             string
+	Leaf             bool
+	Managed          bool
+	Guaranteed       map[string]int64
+	Max              map[string]int64
+	Allocated        map[string]int64
+	Preempting       map[string]int64
+	PreemptionPolicy int
+	PriorityPolicy   int
+	Offset           int32
+	DelayMs          int64
+	QuotaDelayMs     int64
+	QuotaStartSet    bool
+	QuotaStartInMs   int64 // start time minus now
+	QuotaRunning     bool
+}
+
+// ObserveQueue reads the raw fields of queue i.
+func (w *VerifPreemptWorld) ObserveQueue(i int) VerifPreemptQueueObs {
+	q := w.Queues[i]
+	q.RLock()
+	defer q.RUnlock()
+	o := VerifPreemptQueueObs{
+		Path: q.QueuePath, Leaf: q.isLeaf, Managed: q.isManaged,
+		Guaranteed: VerifPreemptMap(q.guaranteedResource), Max: VerifPreemptMap(q.maxResource),
+		Allocated: VerifPreemptMap(q.allocatedResource), Preempting: VerifPreemptMap(q.preemptingResource),
+		PreemptionPolicy: int(q.preemptionPolicy), PriorityPolicy: int(q.priorityPolicy), Offset: q.priorityOffset,
+		DelayMs: q.preemptionDelay.Milliseconds(), QuotaDelayMs: q.quotaPreemptionDelay.Milliseconds(),
+		QuotaStartSet: !q.quotaPreemptionStartTime.IsZero(), QuotaRunning: q.isQuotaPreemptionRunning,
+	}
+	if o.QuotaStartSet {
+		o.QuotaStartInMs = time.Until(q.quotaPreemptionStartTime).Milliseconds()
+	}
+	return o
+}
+
+// ObserveNode returns available and total resources and the schedulable flag of node i.
+func (w *VerifPreemptWorld) ObserveNode(i int) (available, total map[string]int64, schedulable bool) {
+	n := w.Nodes[i]
+	return VerifPreemptMap(n.GetAvailableResource()), VerifPreemptMap(n.totalResource), n.IsSchedulable()
+}
+
+// ObserveFlags returns (preempted, released) per allocation key.
+func (w *VerifPreemptWorld) ObserveFlags() map[string][2]bool {
+	out := make(map[string][2]bool, len(w.Allocs))
+	for k, a := range w.Allocs {
+		out[k] = [2]bool{a.IsPreempted(), a.IsReleased()}
+	}
+	return out
+}
+
+// ObserveReleased returns the release requests sent to the RM so far: one list of "key/terminationType" per event.
+func (w *VerifPreemptWorld) ObserveReleased() [][]string {
+	w.handler.Lock()
+	defer w.handler.Unlock()
+	out := make([][]string, len(w.handler.released))
+	for i, l := range w.handler.released {
+		out[i] = append([]string{}, l...)
+	}
+	return out
+}
+
+// ObserveAsk returns the preemption flags of the ask.
+func (w *VerifPreemptWorld) ObserveAsk() (triggered bool, checked bool) {
+	return w.Ask.HasTriggeredPreemption(), !w.Ask.GetPreemptCheckTime().IsZero()
+}
+
+func verifPreemptKeys(allocs []*Allocation) []string {
+	out := make([]string, 0, len(allocs))
+	for _, a := range allocs {
+		out = append(out, a.GetAllocationKey())
+	}
+	return out
+}
+
+// ---- queue preemption ----
+
+// VerifPreemptor wraps a Preemptor for the ask of the world.
+type VerifPreemptor struct {
+	w *VerifPreemptWorld
+	p *Preemptor
+}
+
+// NewPreemptor creates the preemptor exactly as Application.tryPreemption does.
+func (w *VerifPreemptWorld) NewPreemptor(headRoom map[string]int64, nodesTried bool) *VerifPreemptor {
+	q := w.AskApp.queue
+	return &VerifPreemptor{w: w, p: NewPreemptor(w.AskApp, verifPreemptRes(headRoom), q.GetPreemptionDelay(), w.Ask, w.iterator(), nodesTried)}
+}
+
+func (v *VerifPreemptor) CheckPreconditions() bool { return v.p.CheckPreconditions() }
+
+// FindVictims runs Queue.FindEligiblePreemptionVictims for the ask: potential victims per queue path
+// (every snapshot of the result is listed, also those without victims); the flag is false for a nil result.
+func (w *VerifPreemptWorld) FindVictims() (map[string][]string, bool) {
+	res := w.AskApp.queue.FindEligiblePreemptionVictims(w.AskApp.queuePath, w.Ask)
+	if res == nil {
+		return nil, false
+	}
+	out := make(map[string][]string, len(res))
+	for path, snap := range res {
+		keys := verifPreemptKeys(snap.PotentialVictims)
+		sort.Strings(keys)
+		out[path] = keys
+	}
+	return out, true
+}
+
+// VerifPreemptSnapshotObs lists the derived values of one snapshot of FindEligiblePreemptionVictims.
+type VerifPreemptSnapshotObs struct {
+	Path        string
+	Remaining   map[string]int64
+	Preemptable map[string]int64
+	HasAskQueue bool
+}
+
+// Snapshots returns GetRemainingGuaranteedResource / GetPreemptableResource of every snapshot in the result.
+func (w *VerifPreemptWorld) Snapshots() []VerifPreemptSnapshotObs {
+	res := w.AskApp.queue.FindEligiblePreemptionVictims(w.AskApp.queuePath, w.Ask)
+	out := make([]VerifPreemptSnapshotObs, 0, len(res))
+	for path, snap := range res {
+		out = append(out, VerifPreemptSnapshotObs{Path: path, Remaining: VerifPreemptMap(snap.GetRemainingGuaranteedResource()),
+			Preemptable: VerifPreemptMap(snap.GetPreemptableResource()), HasAskQueue: snap.AskQueue != nil})
+	}
+	sort.Slice(out, func(i, j int) bool { return out[i].Path < out[j].Path })
+	return out
+}
+
+func (v *VerifPreemptor) CheckGuarantees() bool { return v.p.checkPreemptionQueueGuarantees() }
+
+// VerifPreemptTryObs is what TryPreemption did.
+type VerifPreemptTryObs struct {
+	Ok         bool
+	Node       string
+	ResultType string
+	ByNode     map[string][]string         // sorted potential victims per usable node (allocationsByNode)
+	Available  map[string]map[string]int64 // nodeAvailableMap
+	NodeCalc   map[string]VerifPreemptCalc // calculateVictimsByNode per usable node (recomputed after the attempt)
+}
+
+// VerifPreemptCalc is the result of calculateVictimsByNode.
+type VerifPreemptCalc struct {
+	Index   int
+	Nil     bool
+	Victims []string
+}
+
+// TryPreemption runs Preemptor.TryPreemption and reports the working state afterwards.
+func (v *VerifPreemptor) TryPreemption() VerifPreemptTryObs {
+	res, ok := v.p.TryPreemption()
+	o := VerifPreemptTryObs{Ok: ok, ByNode: map[string][]string{}, Available: map[string]map[string]int64{}}
+	if res != nil {
+		o.Node = res.NodeID
+		o.ResultType = res.ResultType.String()
+	}
+	for n, l := range v.p.allocationsByNode {
+		o.ByNode[n] = verifPreemptKeys(l)
+	}
+	for n, r := range v.p.nodeAvailableMap {
+		o.Available[n] = VerifPreemptMap(r)
+	}
+	return o
+}
+
+// CalcVictimsByNode runs calculateVictimsByNode for every usable node on a fresh preemptor (same world state as
+// seen by the caller at this moment).
+func (v *VerifPreemptor) CalcVictimsByNode() map[string]VerifPreemptCalc {
+	v.p.initWorkingState()
+	out := map[string]VerifPreemptCalc{}
+	for n, avail := range v.p.nodeAvailableMap {
+		idx, victims := v.p.calculateVictimsByNode(avail, v.p.allocationsByNode[n])
+		out[n] = VerifPreemptCalc{Index: idx, Nil: victims == nil, Victims: verifPreemptKeys(victims)}
+	}
+	return out
+}
+
+// ---- required node preemption ----
+
+// VerifPreemptReqNodeObs is what the required node preemptor did.
+type VerifPreemptReqNodeObs struct {
+	Sorted []string // filtered allocations in sorted order
+}
+
+// TryRequiredNode runs PreemptionContext.tryPreemption for the ask on the given node.
+func (w *VerifPreemptWorld) TryRequiredNode(node int) VerifPreemptReqNodeObs {
+	p := NewRequiredNodePreemptor(w.Nodes[node], w.Ask, w.AskApp)
+	p.tryPreemption()
+	return VerifPreemptReqNodeObs{Sorted: verifPreemptKeys(p.allocations)}
+}
+
+// ---- quota preemption ----
+
+// Reconfigure applies a new configuration to queue i the way a configuration reload does.
+func (w *VerifPreemptWorld) Reconfigure(i int, s *VerifPreemptQueueSpec) error {
+	q := w.Queues[i]
+	oldMax, err := q.ApplyConf(verifPreemptQueueConf(s))
+	if err != nil {
+		return err
+	}
+	q.MergeParentProperties()
+	q.UpdateQueueProperties(oldMax)
+	return nil
+}
+
+// Advance moves every armed quota preemption start time d into the past.
+func (w *VerifPreemptWorld) Advance(d time.Duration) {
+	for _, q := range w.Queues {
+		q.Lock()
+		if !q.quotaPreemptionStartTime.IsZero() {
+			q.quotaPreemptionStartTime = q.quotaPreemptionStartTime.Add(-d)
+		}
+		q.Unlock()
+	}
+}
+
+// AddUsage calls IncAllocatedResource on queue i as the partition does when an allocation is added.
+func (w *VerifPreemptWorld) AddUsage(i int, res map[string]int64, enabled bool) {
+	w.Queues[i].IncAllocatedResource(verifPreemptRes(res), enabled)
+}
+
+// TryAcquire runs tryAcquirePreemption on queue i.
+func (w *VerifPreemptWorld) TryAcquire(i int) bool { return w.Queues[i].tryAcquirePreemption() }
+
+// QuotaDone clears the running state as the preemption goroutine does when it is finished.
+func (w *VerifPreemptWorld) QuotaDone(i int) { w.Queues[i].setQuotaPreemptionState(false) }
+
+// VerifPreemptQuotaLeafObs is what quota preemption did in one leaf queue.
+type VerifPreemptQuotaLeafObs struct {
+	Path        string
+	Preemptable map[string]int64 // nil when not set
+	Sorted      []string         // filtered allocations in sorted order
+	Claimed     map[string]int64
+}
+
+// VerifPreemptQuotaObs is what quota preemption did for the queue it was started on.
+type VerifPreemptQuotaObs struct {
+	Preemptable map[string]int64
+	Leaves      []VerifPreemptQuotaLeafObs
+}
+
+func verifPreemptLeafObs(c *QuotaPreemptionContext) VerifPreemptQuotaLeafObs {
+	return VerifPreemptQuotaLeafObs{Path: c.queue.QueuePath, Preemptable: VerifPreemptMap(c.preemptableResource),
+		Sorted: verifPreemptKeys(c.allocations), Claimed: VerifPreemptMap(c.results.claimedResource)}
+}
+
+// TryQuota runs the quota preemptor for queue i. With whole set QuotaPreemptionContext.tryPreemption is
+// called as is (per leaf details are then not visible for a parent queue); otherwise the steps of
+// tryPreemption are called one by one so that the state of every leaf context can be reported.
+func (w *VerifPreemptWorld) TryQuota(i int, whole bool) VerifPreemptQuotaObs {
+	qpc := NewQuotaPreemptor(w.Queues[i])
+	if whole {
+		qpc.tryPreemption()
+		o := VerifPreemptQuotaObs{Preemptable: VerifPreemptMap(qpc.preemptableResource)}
+		if qpc.queue.IsLeafQueue() {
+			o.Leaves = append(o.Leaves, verifPreemptLeafObs(qpc))
+		}
+		return o
+	}
+	qpc.setPreemptableResources()
+	o := VerifPreemptQuotaObs{Preemptable: VerifPreemptMap(qpc.preemptableResource)}
+	if qpc.queue.IsLeafQueue() {
+		qpc.tryPreemptionInternal()
+		o.Leaves = append(o.Leaves, verifPreemptLeafObs(qpc))
+		return o
+	}
+	leafQueues := make(map[*Queue]*QuotaPreemptionContext)
+	getChildQueuesPreemptableResource(qpc.queue, qpc.preemptableResource, leafQueues)
+	for _, c := range leafQueues {
+		c.tryPreemptionInternal()
+		o.Leaves = append(o.Leaves, verifPreemptLeafObs(c))
+	}
+	sort.Slice(o.Leaves, func(a, b int) bool { return o.Leaves[a].Path < o.Leaves[b].Path })
+	return o
+}
